@@ -798,7 +798,7 @@ def make_sampler(rng):
         if kind[0] == 'ints':
             return [rint(kind[2], kind[3]) for _ in range(kind[1])]
         if kind[0] == 'seq':
-            n = rng.randint(0, kind[1] if kind[1] is not None else 40)
+            n = rng.randint(0, min(kind[1], 64) if kind[1] is not None else 40)
             return [rng.randint(0, 255) for _ in range(n)]
         return 0
     return sample
